@@ -3,6 +3,7 @@ pub mod client;
 pub mod e2e;
 pub mod listener;
 pub mod server;
+pub mod stubs;
 
 use crate::engine::{CheckSpec, Gen};
 use crate::tape::{Rng, Tape};
@@ -16,6 +17,7 @@ pub enum Scenario {
     Listener(listener::ListenerScn),
     Bytes(bytes::BytesScn),
     E2e(e2e::E2eScn),
+    Stubs(stubs::StubScn),
 }
 
 impl Scenario {
@@ -27,6 +29,7 @@ impl Scenario {
             Scenario::Listener(c) => c.valid(),
             Scenario::Bytes(c) => c.valid(),
             Scenario::E2e(c) => c.valid(),
+            Scenario::Stubs(c) => c.valid(),
         }
     }
 }
@@ -38,6 +41,7 @@ pub fn run_scenario(s: &Scenario, tape: Tape) -> RunOutput {
         Scenario::Listener(c) => listener::run(c, tape),
         Scenario::Bytes(c) => bytes::run(c, tape),
         Scenario::E2e(c) => e2e::run(c, tape),
+        Scenario::Stubs(c) => stubs::run(c, tape),
     }
 }
 
@@ -98,6 +102,10 @@ fn g_e2e_deadlines(r: &mut Rng) -> Scenario {
 }
 fn g_e2e_trace(r: &mut Rng) -> Scenario {
     Scenario::E2e(e2e::gen(r, e2e::EFocus::Trace))
+}
+
+fn g_stubs(r: &mut Rng) -> Scenario {
+    Scenario::Stubs(stubs::gen(r))
 }
 
 fn g_listener(r: &mut Rng) -> Scenario {
@@ -235,7 +243,7 @@ pub fn checks() -> Vec<CheckSpec> {
             &["listener stream: scripted queue", "transport under each BaseChannel: inert keyed stub (no traffic needed)", "open/close driver: scripted"],
             &["drops of admitted channels are atomic harness steps"]),
         spec("C14", "exploration",
-            vec![gen("client.general", 2, g_client_general), gen("client.independent", 1, g_client_independent), gen("client.abandon", 1, g_client_abandon), gen("server.general", 2, g_server_general), gen("server.independent", 1, g_server_independent), gen("server.limit", 1, g_server_limit)],
+            vec![gen("client.general", 2, g_client_general), gen("client.independent", 1, g_client_independent), gen("client.abandon", 1, g_client_abandon), gen("server.general", 2, g_server_general), gen("server.independent", 1, g_server_independent), gen("server.limit", 1, g_server_limit), gen("client.faults", 2, g_client_faults), gen("server.faults", 2, g_server_faults)],
             q, t,
             "contract monitor on every sink operation; capacities {1,2,3,inf}, coupled and independent readiness, stalls; client dispatch, server channel and throttler",
             BOTH_REAL, BOTH_STUB, &[]),
@@ -256,5 +264,12 @@ pub fn checks() -> Vec<CheckSpec> {
             q, t,
             "distinct caller-supplied trace ids and sampling decisions per call; wire Request/Cancel contexts and handler contexts compared",
             BOTH_REAL, BOTH_STUB, &[]),
+        spec("C20", "exploration",
+            vec![gen("stubs", 1, g_stubs)],
+            q, t,
+            "RoundRobin over 1-5 scripted backends with 1-6 concurrent caller tasks x 1-6 calls, abandoned calls, preemption at the cursor's yield point (hook H4); ConsistentHash with SipHash / constant / identity hashers; Retry over a backend with a generated result sequence (transient errors are the fault sequence) and a scripted policy, against a reference retry loop",
+            &["tarpc::client::stub::load_balance::{RoundRobin, ConsistentHash}, tarpc::client::stub::retry::Retry (real)"],
+            &["backends: scripted Stub impls with latency", "caller tasks, executor: simulator"],
+            &["the consistent-hash clause is input sampling, not schedule dependent"]),
     ]
 }
